@@ -86,7 +86,7 @@ def run_case(ctx, case, rec, d):
     # two additional parameters are inserted in non-alphabetical order (columns follow the dictionary's order)
     # (the first value of ADD1 is a python int, the others are not whole numbers)
     adds = [{}, {'ADD1': {nm: (100 if i == 0 else 100.625 + 3 * i) for i, nm in enumerate(names)}},
-            {'ZETA': {nm: 100.0 + 3 * i for i, nm in enumerate(names)}, 'ALPHA': {nm: 0.001 * (i + 1) for i, nm in enumerate(names)}}]
+            {'ZETA': {nm: 100.0 + 3 * i for i, nm in enumerate(names)}, 'ALPHA': {nm: 0.001 * ((i + 1) % len(names)) for i, nm in enumerate(names)}}]          # (the last model's ALPHA is exactly zero: a value like any other)
     cfg = (tuple(perm), case['fmt'], case['n_cols'], case['nan'])
     rec.state(cfg)
     sels = _selectors(np.asarray(base_infos[0].chi2, float), int(base_infos[0].source.n_data))
